@@ -14,7 +14,7 @@ RULE = ('stimulus = (construction script over <= 8 blocks mixing object / name /
         'reference); distinct = SHA-1 of canonical JSON; non-trivial = the script has a reference '
         'by name or a shortcut')
 INVALID = ['unknown_name', 'foreign_block', 'event_to_cblock', 'filter_wrong_kind', 'not_unconnected',
-           'not_two_inputs', 'override_group', 'func_mismatch', 'duplicate_name', 'bad_shortcut',
+           'not_two_inputs', 'override_group', 'override_empty_group', 'func_mismatch', 'duplicate_name', 'bad_shortcut',
            'connect_twice', 'unknown_event_dest', 'reserved_name']
 
 
@@ -62,8 +62,12 @@ def _rand_script(rnd):
         blocks.append({'kind': kind, 'ins': ins})
     sbl = [i for i, b in enumerate(blocks, 1) if b['kind'] == 's']
     events = [{'dest': rnd.choice(sbl), 'byname': rnd.random() < .6} for _ in range(rnd.randint(0, 3))]
-    ctrls = [{'blk': rnd.choice(sbl), 'byname': rnd.random() < .6,
+    ctrls = [{'blk': rnd.choice(sbl), 'byname': rnd.random() < .6, 'inv': False,
               'k': rnd.choice(['add_output', 'ifoutput', 'ifnotinit'])} for _ in range(rnd.randint(0, 2))]
+    for c in ctrls:
+        # the control block may be an inverter known only by its '_not_NAME' shortcut
+        if rnd.random() < 0.25:
+            c.update(byname=True, inv=True, blk=rnd.randint(1, n), k=rnd.choice(['add_output', 'ifoutput']))
     return {'blocks': blocks, 'events': events, 'ctrls': ctrls}
 
 
@@ -91,7 +95,8 @@ def _hdr(stim):
                        'ins': [{'single': i['single'],
                                 'refs': [{'t': r['t'], 'x': r['x']} for r in i['refs']]} for i in b['ins']]})
     return {'script': script, 'events': [{'dest': e['dest']} for e in stim['events']],
-            'ctrls': [{'blk': c['blk']} for c in stim['ctrls']], 'invalid': stim['invalid'],
+            'ctrls': [{'blk': c['blk'], 'inv': bool(c.get('inv'))} for c in stim['ctrls']],
+            'invalid': stim['invalid'],
             'mode': stim['mode']}
 
 
@@ -145,6 +150,8 @@ def execute(stim):
             events.append(edzed.Event(name(e['dest']) if e['byname'] else blks[e['dest']], 'put'))
         for c in stim['ctrls']:
             tgt = name(c['blk']) if c['byname'] else blks[c['blk']]
+            if c.get('inv'):
+                tgt = '_not_' + name(c['blk'])
             if c['k'] == 'add_output':
                 ctrls.append(('add_output', edzed.DataEdit.add_output('k', tgt)))
             elif c['k'] == 'ifoutput':
@@ -172,6 +179,8 @@ def execute(stim):
             edzed.Not('bad').connect(name(1), name(1))
         elif inv == 'override_group':
             edzed.Override('bad').connect(input=[name(1)], override=name(1))
+        elif inv == 'override_empty_group':
+            edzed.Override('bad').connect(input=[], override=name(1))
         elif inv == 'func_mismatch':
             edzed.FuncBlock('bad', func=lambda a, b: 0).connect(name(1))
         elif inv == 'duplicate_name':
@@ -247,12 +256,20 @@ def execute(stim):
                 cres.append(0)      # not resolved (or not usable)
                 continue
             tgt = blks[spec['blk']]
+            bid = spec['blk']
+            if spec.get('inv'):
+                try:
+                    tgt = circuit.findblock('_not_' + name(spec['blk']))
+                    bid = n + spec['blk']
+                except KeyError:
+                    cres.append(-2)
+                    continue
             if k == 'add_output':
-                cres.append(spec['blk'] if res.get('k', 'missing') is tgt.output else -1)
+                cres.append(bid if res.get('k', 'missing') is tgt.output else -1)
             elif k == 'ifoutput':
-                cres.append(spec['blk'] if bool(res) == bool(tgt.output) else -1)
+                cres.append(bid if bool(res) == bool(tgt.output) else -1)
             else:
-                cres.append(spec['blk'] if bool(res) == (not tgt.is_initialized()) else -1)
+                cres.append(bid if bool(res) == (not tgt.is_initialized()) else -1)
         lines.append({'ev': 'final', 'exist': sorted(exist), 'blocks': recs, 'dests': dests, 'ctrls': cres})
 
     def frozen_checks(circuit):
